@@ -604,11 +604,41 @@ def r01_4(ck):
 
 
 # ------------------------------------------------------------------ R01.5
+def front_leaves_with_process(dp):
+    """Does Engine._delete_path drop self.front[path] for every path under
+    the deleted prefix?  (the same test as C10 R10.4 'front')"""
+    cfg = cfg_of(dp.node)
+    param = A.params_of(dp.node)[1]
+    cands = [c for c in A.calls_in(dp.node, 'pop')
+             if A.unparse(A.call_receiver(c)) == 'self.front']
+    cands += [d for d in A.walk_no_nested(dp.node)
+              if isinstance(d, ast.Delete) and A.unparse(
+                  d.targets[0]).startswith('self.front[')]
+    for c in cands:
+        g = cfg.guards(cfg.node(c))
+        if any(a[0] == 'truthy' and a[1].replace(' ', '').startswith(
+                'starts_with(') and a[1].replace(' ', '').endswith(
+                ',%s)' % param) for a in g):
+            return True
+    return False
+
+
 def r01_5(ck, rf):
     ck.rule('R01.5', 'deleted processes: _remove_deleted_processes() runs in '
             'every scheduler iteration before polling and rebinds front to '
             'the entries whose path is still in process_paths')
     f, cfg = rf.fi, rf.cfg
+    # Since front entries are dropped where the process is deleted
+    # (Engine._delete_path, C10 R10.4 'front'), every key of front is a key
+    # of process_paths and the per-iteration filter is the identity: when
+    # that is the case on this tree, how (and whether) the filter is written
+    # decides nothing.
+    dp = ck.fn('Engine._delete_path', 'core.engine')
+    if front_leaves_with_process(dp):
+        ck.ok('R01.5', dp, 'front entry dropped in Engine._delete_path',
+              'the front entry of a deleted process is dropped where the '
+              'process is deleted; the per-iteration filter is redundant')
+        return
     calls = [c for c in rf.calls('_remove_deleted_processes')
              if within(c, rf.while_loop)]
     pn = cfg.node(rf.poll_loop)
@@ -622,6 +652,19 @@ def r01_5(ck, rf):
                'dominate the polling loop', rf.while_loop)
     # the take loop must also come after it (it does, being after polling)
     rd = ck.fn('Engine._remove_deleted_processes', 'core.engine')
+    # ... and it filters on every call: no shortcut past the rebuild
+    crd = cfg_of(rd.node)
+    early = [r for r in A.walk_no_nested(rd.node)
+             if isinstance(r, ast.Return) and crd.node(r) is not None
+             and crd.guards(crd.node(r))]
+    ck.require(not early, 'R01.5', rd, early[0] if early else rd.node.name,
+               'the front is filtered on every call',
+               '_remove_deleted_processes returns early under %s: when as '
+               'many processes were added as deleted the stale entries '
+               'survive and a process re-created at such a path inherits '
+               'an old due time' % (sorted(crd.guards(crd.node(early[0])))
+                                    if early else ''),
+               early[0] if early else None)
     ok = False
     for n in A.walk_no_nested(rd.node):
         if isinstance(n, ast.Assign) and any(
